@@ -286,7 +286,8 @@ fn dense_of(m: &Matrix) -> Option<Vec<f64>> {
 
 fn build(rng: &mut Rng, n: usize) -> (Matrix, String) {
     loop {
-        let spec = rand_ctor(rng, n);
+        // half of the operands are general banded matrices (the storage with the most index arithmetic)
+        let spec = if rng.chance(0.5) { format!("banded {} {} {}", n, rng.below(n + 1), rng.below(n + 1)) } else { rand_ctor(rng, n) };
         let mut ex = Exec::new();
         ex.new_mat("A", &spec);
         if let Some(_) = ex.regs.get("A") {
